@@ -245,6 +245,9 @@ func w4Run(t *testing.T, r *verifsim.Run) {
 		mapShare = 2
 	}
 	r.Config["flood_resets"] = w.maps.allowResets
+	// hash-derived, so that the choice vector of every other run keeps its meaning
+	w.maps.bulk = !floodFocus && c.Keyed(8, 7200) == 1
+	r.Config["bulk_mapping_put_and_delete"] = w.maps.bulk
 
 	w.memfs = gofs.NewThreadSafeMemoryFs()
 	if _, err := fsbinlog.CreateEmptyFsBinlog(fsbinlog.Options{PrefixPath: "/mb", Magic: 3456, Fs: w.memfs}); err != nil {
